@@ -116,16 +116,24 @@ pub fn generate(_prop: &str, _tier: Tier, seed: u64, run: u64) -> Sc {
         let mut env = SEnv::new();
         env.0.insert("T".into(), SType::variant(vec![(SLabel::Named("a".into()), SType::name("T")), (SLabel::Named("b".into()), SType::Prim(Prim::Null))]));
         env.0.insert("L".into(), SType::opt(SType::record(vec![(SLabel::Named("head".into()), SType::Prim(Prim::Nat8)), (SLabel::Named("tail".into()), SType::name("L"))])));
-        let which = *knobs.pick(&["T", "L"]);
+        // W: the non-recursive alternative mentions one named type twice
+        env.0.insert("P".into(), SType::record(vec![(SLabel::Named("x".into()), SType::Prim(Prim::Nat8))]));
+        env.0.insert("W".into(), SType::variant(vec![(SLabel::Named("stop".into()), SType::record(vec![(SLabel::Id(0), SType::name("P")), (SLabel::Id(1), SType::name("P"))])), (SLabel::Named("go".into()), SType::name("W"))]));
+        let which = *knobs.pick(&["T", "L", "W"]);
         let d = knobs.range(0, 12) as usize;
-        let config = if knobs.chance(1, 2) { format!("[random]\ndepth = {d}\n") } else { format!("[random]\ndepth = 40\n[random.{which}]\ndepth = {d}\n") };
+        let config = match knobs.below(3) {
+            0 => format!("[random]\ndepth = {d}\n"),
+            1 => format!("[random]\ndepth = 40\n[random.{which}]\ndepth = {d}\n"),
+            // the size budget binds before the depth budget (size counts type nodes and is never given back)
+            _ => format!("[random]\ndepth = 40\nsize = {d}\n"),
+        };
         let n = *fl.pick(&[0usize, 1, 8, 64, 256]);
         let entropy = match fl.below(4) {
             0 => vec![0x00; n],
             1 => vec![0xff; n],
             _ => fl.bytes(n),
         };
-        return Sc { stack_kib: 8192, env, tys: vec![SType::name(which)], config, entropy: crate::engines::stream::hex(&entropy), cuts: Cuts::EveryPrefix, nesting_bound: Some(d + 4) };
+        return Sc { stack_kib: 8192, env, tys: vec![SType::name(which)], config, entropy: crate::engines::stream::hex(&entropy), cuts: Cuts::EveryPrefix, nesting_bound: Some(d + 6) };
     }
     let mut k = TyKnobs::draw(&mut knobs);
     k.defs = knobs.range(0, 5) as usize;
